@@ -102,6 +102,9 @@ def exec_for(it, node):
         if V.is_val(x):
             st.note_ref(x)
             st.assume(x != V.ABSENT)
+        if getattr(iterv, 'dict_ref', None) is not None:
+            # representation invariant of dictionaries: every key of the key sequence is mapped
+            st.assume(z3.Select(st.sel(entry_heap.get('dmap'), iterv.dict_ref), x) != V.ABSENT)
         it.bind_target(node.target, x)
         try:
             it.exec_block(node.body)
